@@ -236,6 +236,30 @@ M("C16", "breezeless-setter-forgets-id", DEV, "        self._updated_properties.
 M("C16", "all-supported-props-sent", DEV, "            for k in self._updated_properties & self._PROPERTY_MAP.keys()", "            for k in (self._updated_properties | self._supported_properties) & self._PROPERTY_MAP.keys()")
 M("C16", "breeze-control-off-as-zero", DEV, "        PropertyId.BREEZE_CONTROL: lambda s: s._breeze_mode,", "        PropertyId.BREEZE_CONTROL: lambda s: s._breeze_mode if s._breeze_mode != AirConditioner.BreezeMode.OFF else 0,")
 
+# ---- C17
+M("C17", "id-8-bytes", DISC, 'device_id = int.from_bytes(data_mv[20:26], "little")', 'device_id = int.from_bytes(data_mv[20:28], "big")')
+M("C17", "id-big-endian", DISC, 'device_id = int.from_bytes(data_mv[20:26], "little")', 'device_id = int.from_bytes(data_mv[20:26], "big")')
+M("C17", "port-big-endian", DISC, 'port = int.from_bytes(decrypted_mv[4:6], "little")', 'port = int.from_bytes(decrypted_mv[4:6], "big")')
+M("C17", "type-from-suffix", DISC, 'device_type = int(name.split("_")[1], 16)', 'device_type = int(name.split("_")[2][:2], 16)')
+M("C17", "v3-strip-6", DISC, "data_mv = data_mv[8:-16]", "data_mv = data_mv[6:-16]")
+M("C17", "reported-ip-used", DISC, 'return {"ip": ip, "port": port,', 'return {"ip": ip_address, "port": port,')
+M("C17", "probe-byte-flipped", "msmart/const.py", "    0x5a, 0x5a, 0x01, 0x11, 0x48, 0x00, 0x92, 0x00,\n    0x00, 0x00, 0x00, 0x00, 0x00, 0x00, 0x00, 0x00,\n    0x00, 0x00, 0x00, 0x00, 0x00, 0x00, 0x00, 0x00,\n    0x00, 0x00, 0x00, 0x00, 0x00, 0x00, 0x00, 0x00,\n    0x00, 0x00, 0x00, 0x00, 0x00, 0x00, 0x00, 0x00,\n    0x7f, 0x75, 0xbd, 0x6b,", "    0x5a, 0x5a, 0x01, 0x11, 0x48, 0x00, 0x92, 0x00,\n    0x00, 0x00, 0x00, 0x00, 0x00, 0x00, 0x00, 0x00,\n    0x00, 0x00, 0x00, 0x00, 0x00, 0x00, 0x00, 0x00,\n    0x00, 0x00, 0x00, 0x00, 0x00, 0x00, 0x00, 0x00,\n    0x00, 0x00, 0x00, 0x00, 0x00, 0x00, 0x00, 0x00,\n    0x7f, 0x75, 0xbd, 0x6a,")
+M("C17", "only-port-6445", DISC, "for port in [6445, 20086]:", "for port in [6445]:")
+M("C17", "no-so-broadcast", DISC, "            sock.setsockopt(socket.SOL_SOCKET, socket.SO_BROADCAST, 1)\n", "            pass\n")
+M("C17", "name-length-ignored", DISC, "name = decrypted_mv[41:41+name_length].tobytes().decode()", "name = decrypted_mv[41:].tobytes().decode()")
+M("C17", "generic-device-for-uppercase", DISC, "        if device_type == DeviceType.AIR_CONDITIONER:\n            return AirConditioner", "        if device_type == DeviceType.AIR_CONDITIONER and False:\n            return AirConditioner")
+M("C17", "sn-offset", DISC, "sn = decrypted_mv[8:40].tobytes().decode()", "sn = decrypted_mv[9:41].tobytes().decode()")
+M("C17", "version-from-marker-only-v2", DISC, "            elif start_of_packet == b\"\\x83\\x70\":\n                return 3", "            elif start_of_packet == b\"\\x83\\x70\":\n                return 2")
+
+# ---- C18
+M("C18", "no-dedupe", DISC, "        if ip in self._discovered_ips:\n            return\n", "")
+M("C18", "dedupe-by-ip-and-port", DISC, "        if ip in self._discovered_ips:\n            return\n\n        self._discovered_ips.add(ip)", "        if addr in self._discovered_ips:\n            return\n\n        self._discovered_ips.add(addr)")
+M("C18", "narrow-except-regression", DISC, "        except (IndexError, KeyError, ValueError) as e:\n            # Malformed response e.g. truncated body, bad text encoding or missing fields\n            _LOGGER.error(\"Malformed discovery response from %s: %r\", ip, e)\n            return None\n", "")
+M("C18", "filter-none-dropped", DISC, "        devices = list(filter(None, devices))", "        devices = list(devices)")
+M("C18", "version-error-not-caught", DISC, "        except DiscoverError:\n            _LOGGER.error(\"Unknown device version for %s.\", ip)\n            return", "        except KeyError:\n            _LOGGER.error(\"Unknown device version for %s.\", ip)\n            return")
+M("C18", "dedupe-set-after-parse", DISC, "        self._discovered_ips.add(ip)\n\n        _LOGGER.debug(\"Discovery response from %s: %s\", ip, data.hex())", "        _LOGGER.debug(\"Discovery response from %s: %s\", ip, data.hex())")
+M("C18", "only-valueerror-caught", DISC, "        except (IndexError, KeyError, ValueError) as e:", "        except ValueError as e:")
+
 
 def apply_mutant(src_root: str, file: str, old: str, new: str) -> None:
     p = os.path.join(src_root, file)
